@@ -136,12 +136,13 @@ def shortest_path_to_vertex_set(mesh : PolyLine, start : int, targets : list, we
 
     if len(targets)==1 : 
         # nothing special to do in this case, just call shortest_path between two vertices
+        target = targets[0]
         if export_path_mesh:
-            parent, mesh = shortest_path(mesh, start, TARGET, weights, export_path_mesh)
-            return TARGET, parent[TARGET], mesh
+            parent, mesh = shortest_path(mesh, start, [target], weights, export_path_mesh)
+            return target, parent[target], mesh
         else:
-            parent = shortest_path(mesh, start, TARGET, weights, export_path_mesh)[TARGET]
-            return TARGET, parent
+            parent = shortest_path(mesh, start, [target], weights, export_path_mesh)[target]
+            return target, parent
 
     # Initialize data
     # build a dict u -> (v -> d) with u and v vertices and d the weight between them
